@@ -383,6 +383,13 @@ HARNESSES = [
       bounds="ROOM, MILP variant, on the MILP contract (one binary per reaction: T1 8, T2 16 assignments enumerated in the "
              "formula); first 2 reactions' bounds symbolic; reference = pFBA of the wild type (symbolic, from the stub) or "
              "default; one reaction (every choice, or none) knocked out; (delta,epsilon) in {(0.03,1e-3),(0.25,0.5)}; direction max"),
+    H("c09_room_wide", lambda E: c09_room(E, templates=(("T1", 3), ("T2", 2))), tiers=("thorough",),
+      thorough=dict(max_paths=200000, time_budget=500),
+      bounds="ROOM (MILP) on T1 with all bounds symbolic and T2 (4 binaries, 16 assignments) with 2 symbolic reactions"),
+    H("c09_room_symbolic_reference", lambda E: c09_room(E, templates=(("T1", 1),), symbolic_reference=True), tiers=("thorough",),
+      thorough=dict(max_paths=100000, time_budget=400),
+      bounds="ROOM (MILP) on T1, reference = pFBA of the wild type taken from the stub (symbolic fluxes), one symbolic reaction, "
+             "then one knock-out"),
     H("c09_room_linear", c09_room_linear, quick=dict(max_paths=2000, time_budget=40), thorough=dict(max_paths=20000, time_budget=200),
       witness_every=1,
       bounds="ROOM, linear variant: T1/T2 with 3 concrete bound vectors each x 3 concrete references x every knock-out; the solver "
